@@ -405,6 +405,8 @@ def main(tier, seed):
     check_pullback_rules(rep, algopy, rng, tier)
     check_driver_arguments(rep, algopy, rng, tier)
     check_extractors(rep, algopy, rng, tier)
+    import r9
+    r9.c14_results_as_arguments(rep, algopy, rng, tier)
     return rep.finish()
 
 
